@@ -47,7 +47,7 @@ func init() {
 		ID: "C07",
 		Rule: "One case = one clear single-track CMAF input (own generator: AVC avc1/avc3, HEVC hvc1/hev1 with SPS/PPS/slice headers from the harness' serializer so that the slice-header byte length is ground truth, pps id != sps id, decoy SPS, CABAC/CAVLC, varying frame_num/poc widths, IDR/non-IDR, emulation prevention inside headers; AAC/AC-3 audio sizes 0..4095 covering every residue mod 16; " +
 			"VCL NAL sizes 5..15, 16, 17..91, 92..130, 131..999, ~1k, ~70k; non-VCL NAL > 65535 bytes; 1..4 fragments, optional uuid/unknown/free/pssh boxes in moof/traf) x one configuration (scheme cenc|cbcs, key random|zero|ff, IV 8|16 bytes incl. low-64-bit and 128-bit wrap), " +
-			"encrypted through InitProtect/EncryptFragment/Encode (reader or slice reader, combined or separate init, ExtractInitProtectData) or through the mp4ff-encrypt binary (combined or -init). Pinned cases first: clear runs of exactly 65534..65537, 131069..131072, 196605/196606 bytes, samples with 39/40/42/43 protected NAL units, the repo's real clear streams (slice-header clause not evaluated for those). " +
+			"encrypted through InitProtect/EncryptFragment/Encode (reader or slice reader, combined or separate init, ExtractInitProtectData) or through the mp4ff-encrypt binary (combined or -init). Pinned cases first (88): clear runs of exactly 65534..65537, 131069..131072, 196605/196606 bytes, samples with 39/40/42/43 protected NAL units, senc layouts that also tile with a wrong IV size, the repo's 7 real clear streams x scheme x IV length (slice-header clause not evaluated for those); then 6000 (quick) / 250000 (thorough) random cases. " +
 			"A case is non-trivial when the encryption succeeded and at least one sample has >= 2 sub-sample entries or a protected part that is not a multiple of 16 bytes; distinct_nontrivial counts distinct (clear file, configuration) hashes; evaluations counts samples checked.",
 		Assumptions: []string{
 			"reference ciphers (ref/cenc) use crypto/aes only for the 16-byte block function; they are cross-checked against NIST SP 800-38A vectors in ref/cenc tests",
